@@ -230,3 +230,5 @@ pub proof fn lemma_split_done(l0: Seq<Range>, cur: Seq<Range>, ms: Seq<Migration
     }
 }
 pub proof fn lemma_split_other_halves(l0: Seq<Range>, cur: Seq<Range>, ms: Seq<MigrationSlots>, cds: Seq<Range>, e: MigrationSlots, i: int, p: int) requires true ensures true {}
+// fair share: a source master keeps at least min(what it had, floor average avg)
+pub open spec fn keeps_floor(o: Seq<Range>, n: Seq<Range>, avg: int) -> bool { slots_num(n) >= (if slots_num(o) <= avg { slots_num(o) } else { avg }) }
